@@ -60,6 +60,12 @@ pub fn check_sign<V: Fv>(k: &Key<V>, pk_h: &[i64], msg: &[u8], shape: &str, stra
         }
     };
     let sb = V::sig_to_bytes(&sig);
+    if let Strategy::ForcedSalt { salt } = strat {
+        // steering evidence only (how the signer draws its salt is its own business)
+        if sb.len() > 41 && sb[1..41] == salt[..] {
+            rep.count("forced_salt_taken", 1);
+        }
+    }
     let v1 = monitored(|| V::verify(msg, &sig, &k.pk));
     let (v2, trace) = if sb.len() == V::SIG_LEN { spec::verify_traced(msg, &sb[1..41], &sb[41..], pk_h) } else { (false, spec::VerifyTrace::BadEncoding) };
     match v1 {
@@ -129,13 +135,38 @@ fn matrix_v<V: Fv>(ctx: &Ctx, nkeys: usize, rep: &mut Report) {
     rep.merge(r);
 }
 
+/// Honest signatures whose (salt, message) pair hashes through an EXTREME chunk stream (many
+/// rejected chunks early, long runs of rejections; selected with the reference SHAKE, see C14):
+/// the salt is handed to the signer through the RNG hook. Signer and verifier must still agree.
+fn extreme_salts<V: Fv>(ctx: &Ctx, rep: &mut Report) {
+    let (keys, _bad) = pool::keys::<V>(ctx.seed, "c01-xs", 2);
+    if keys.is_empty() {
+        return;
+    }
+    let hs: Vec<Vec<i64>> = keys.iter().map(|k| spec::pk_fields(&V::pk_to_bytes(&k.pk)[1..])).collect();
+    let xs = super::c14::extreme_inputs(ctx.seed ^ 0x101, ctx.sz(6_000_000, 200_000_000), ctx.sz(400, 6000));
+    let r = par_for(xs.len(), ncpu(), |i, rep| {
+        let (_, s) = &xs[i];
+        let ki = i % keys.len();
+        let strat = Strategy::ForcedSalt { salt: s[..40].to_vec() };
+        check_sign::<V>(&keys[ki], &hs[ki], &s[40..], "extreme-hash", &strat, 0, ctx.seed, &format!("c01-xs-{}-{}", V::NAME, i), rep);
+        rep.count("signatures_with_extreme_hash_streams", 1);
+        rep.nontrivial(s);
+    });
+    rep.merge(r);
+}
+
 pub fn matrix(ctx: &Ctx, rep: &mut Report) {
+    extreme_salts::<F512>(ctx, rep);
+    extreme_salts::<F1024>(ctx, rep);
     matrix_v::<F1024>(ctx, ctx.sz(4, 200), rep);
     matrix_v::<F512>(ctx, ctx.sz(12, 1000), rep);
     rep.require("exec_with_norm_reject", 20);
     rep.require("exec_with_3plus_norm_rejects", 5);
     rep.require("exec_with_compress_retry", 20);
     rep.require("signatures_checked", 500);
+    rep.require("signatures_with_extreme_hash_streams", 100);
+    rep.require("forced_salt_taken", 100);
 }
 
 /// The un-overridden path: thread_rng inside sign, events still observed.
